@@ -146,7 +146,14 @@ impl ShortFileName {
                     }
                 }
                 _ => {
-                    let b = ch.to_ascii_uppercase() as u8;
+                    // Upper-case the letter. ISO-8859-1 has lower-case
+                    // letters beyond ASCII: U+00E0..=U+00FE (without the
+                    // division sign U+00F7) pair with U+00C0..=U+00DE; the
+                    // upper-case of U+00FF is outside ISO-8859-1.
+                    let b = match ch {
+                        '\u{00E0}'..='\u{00F6}' | '\u{00F8}'..='\u{00FE}' => ch as u8 - 0x20,
+                        _ => ch.to_ascii_uppercase() as u8,
+                    };
                     if seen_dot {
                         if (Self::BASE_LEN..Self::TOTAL_LEN).contains(&idx) {
                             sfn.contents[idx] = b;
